@@ -93,6 +93,57 @@ def lemmas():
     return out
 
 
+IntArr = z3.ArraySort(z3.IntSort(), z3.IntSort())
+NEEDA = z3.Function("NEEDA", IntArr, z3.IntSort(), z3.IntSort())      # nodes still needed after the first k entries of an arity string
+
+
+def shape_lemmas():
+    """Facts about validity of arity strings (Lukasiewicz condition) that the contract of get_allowed_shapes uses, derived from the
+    definition  NEEDA(A,0) = 1, NEEDA(A,k+1) = NEEDA(A,k) + A[k] - 1,  VALID(A,n) <=> (forall k<n. NEEDA(A,k) >= 1) and NEEDA(A,n) = 0
+    (the same counter as in the verified contract of check_tree).  Each is a small query; inductions are split into base and step."""
+    A, B = z3.Const("A", IntArr), z3.Const("B", IntArr)
+    n, k, m, j = z3.Ints("n k m j")
+    unf = lambda X, kk: NEEDA(X, kk + 1) == NEEDA(X, kk) + z3.Select(X, kk) - 1
+    base = lambda X: NEEDA(X, z3.IntVal(0)) == 1
+    valid = lambda X: z3.And(z3.ForAll([j], z3.Implies(z3.And(0 <= j, j < n), NEEDA(X, j) >= 1)), NEEDA(X, n) == 0)
+    digits = lambda X: z3.ForAll([j], z3.Implies(z3.And(0 <= j, j < n), z3.And(z3.Select(X, j) >= 0, z3.Select(X, j) <= 2)))
+    out = []
+    out.append(("a valid string ends with a leaf", [
+        ("direct", [n >= 1, base(A), unf(A, n - 1), valid(A), digits(A)], z3.Select(A, n - 1) == 0)]))
+    out.append(("a valid string of more than one node does not start with a leaf", [
+        ("direct", [n > 1, base(A), unf(A, z3.IntVal(0)), valid(A), digits(A)], z3.Select(A, z3.IntVal(0)) != 0)]))
+    out.append(("the last-but-one node of a valid string of more than one node is not binary", [
+        ("direct", [n > 1, base(A), unf(A, n - 1), unf(A, n - 2), valid(A), digits(A)], z3.Select(A, n - 2) != 2)]))
+    pre = lambda mm: z3.ForAll([j], z3.Implies(z3.And(0 <= j, j < mm), z3.Select(A, j) == z3.Select(B, j)))
+    out.append(("strings with a common prefix of length m have the same counter up to m", [
+        ("base", [base(A), base(B)], NEEDA(A, z3.IntVal(0)) == NEEDA(B, z3.IntVal(0))),
+        ("step", [m >= 0, unf(A, m), unf(B, m), z3.Select(A, m) == z3.Select(B, m), NEEDA(A, m) == NEEDA(B, m)], NEEDA(A, m + 1) == NEEDA(B, m + 1))]))
+    # with the prefix lemma as a hypothesis (proved just above by induction):
+    prefix_lemma = z3.ForAll([m], z3.Implies(z3.And(0 <= m, pre(m)), NEEDA(A, m) == NEEDA(B, m)))
+    out.append(("L3: if the first m-1 entries of B already complete a tree (NEEDA(B,m-1) = 0, 1 <= m-1 < n), every string A that starts with B[:m] is invalid", [
+        ("direct", [prefix_lemma, pre(m), 1 <= m - 1, m - 1 < n, NEEDA(B, m - 1) == 0], z3.Not(valid(A)))]))
+    pl2 = z3.ForAll([m], z3.Implies(z3.And(0 <= m, m <= n), NEEDA(A, m) == NEEDA(B, m)))
+    out.append(("validity depends on the content only: strings that agree on all n entries are both valid or both invalid", [
+        ("counters", [prefix_lemma, pre(n), 0 <= m, m <= n], NEEDA(A, m) == NEEDA(B, m)),
+        ("direct", [pl2, n >= 0], valid(A) == valid(B))]))
+    return out
+
+
+def prove_shape_lemmas(timeout_ms=10000):
+    res = []
+    for name, parts in shape_lemmas():
+        for part, hyps, goal in parts:
+            s_ = z3.Solver()
+            s_.set("timeout", timeout_ms)
+            for h in hyps:
+                s_.add(h)
+            s_.add(z3.Not(goal))
+            t = time.time()
+            r = s_.check()
+            res.append(("%s [%s]" % (name, part), "proved" if r == z3.unsat else ("refuted" if r == z3.sat else "unknown"), time.time() - t))
+    return res
+
+
 TRIST = z3.Function("TRIST", z3.IntSort(), z3.IntSort(), z3.IntSort())
 
 
